@@ -195,7 +195,8 @@ def _sweep_worker(args):
 
 
 def write_finding(prop_id, case, violations, origin):
-    d = os.path.join(ROOT, 'findings', prop_id)
+    d = os.path.join(os.environ.get('VERIF_FINDINGS_DIR') or os.path.join(ROOT, 'findings'),
+                     prop_id)
     os.makedirs(d, exist_ok=True)
     path = os.path.join(d, case_digest(case) + '.json')
     with open(path, 'w') as f:
@@ -350,8 +351,9 @@ def run_property(prop_id, tier, seed, replay=None, jobs=None, out=sys.stdout):
         coverage=coverage, assumptions=list(prop.ASSUMPTIONS), wall_s=round(wall, 2),
         violations=len(seen))
     if not harness_errors:
-        os.makedirs(os.path.join(ROOT, 'evidence'), exist_ok=True)
-        with open(os.path.join(ROOT, 'evidence', prop_id + '.json'), 'w') as f:
+        edir = os.environ.get('VERIF_EVIDENCE_DIR') or os.path.join(ROOT, 'evidence')
+        os.makedirs(edir, exist_ok=True)
+        with open(os.path.join(edir, prop_id + '.json'), 'w') as f:
             json.dump(evidence, f, indent=1, default=str)
             f.write("\n")
     say("%s %s seed=%d: %d cases, %d distinct non-trivial, %d violation(s), "
